@@ -92,6 +92,8 @@ def slic(array, spacer=16, m=1.0, max_iters=128):
     spacer = int(spacer)
     if spacer < 1:
         raise ValueError('mahotas.segmentation.slic: `spacer` must be a positive integer (got {0})'.format(spacer))
+    if min(array.shape[:2]) <= spacer//2:
+        raise ValueError('mahotas.segmentation.slic: array of shape {0} is too small for `spacer` = {1} (no seed would be placed)'.format(array.shape, spacer))
     labels = np.zeros((array.shape[0], array.shape[1]), dtype=np.intc)
     labels = labels.copy()
     n = _labeled.slic(array, labels, int(spacer), float(m), int(max_iters))
